@@ -29,6 +29,12 @@ import (
 type c13QFSender struct {
 	tbl   map[hotstuff.Hash][]*hotstuff.Block
 	given []*hotstuff.Block
+	// while a hash is being fetched (the accepted reply still arrives): 1 TimeoutEvent,
+	// 2 ViewChangeEvent reach the event loop, 3 the accepted block is stored by another path
+	el      *eventloop.EventLoop
+	chain   *blockchain.Blockchain
+	inject  map[hotstuff.Hash]int
+	refused int
 }
 
 func (s *c13QFSender) NewView(hotstuff.ID, hotstuff.SyncInfo) error { return nil }
@@ -36,7 +42,12 @@ func (s *c13QFSender) Vote(hotstuff.ID, hotstuff.PartialCert) error { return nil
 func (s *c13QFSender) Timeout(hotstuff.TimeoutMsg)                  {}
 func (s *c13QFSender) Propose(*hotstuff.ProposeMsg)                 {}
 func (s *c13QFSender) Sub([]hotstuff.ID) (core.Sender, error)       { return s, nil }
-func (s *c13QFSender) RequestBlock(_ context.Context, h hotstuff.Hash) (*hotstuff.Block, bool) {
+func (s *c13QFSender) RequestBlock(ctx context.Context, h hotstuff.Hash) (*hotstuff.Block, bool) {
+	if ctx.Err() != nil {
+		// like GorumsSender: a request made with a cancelled context fails without an answer
+		s.refused++
+		return nil, false
+	}
 	replies := map[uint32]*hotstuffpb.Block{}
 	for i, b := range s.tbl[h] {
 		replies[uint32(i+1)] = hotstuffpb.BlockToProto(b)
@@ -46,6 +57,14 @@ func (s *c13QFSender) RequestBlock(_ context.Context, h hotstuff.Hash) (*hotstuf
 		return nil, false
 	}
 	b := hotstuffpb.BlockFromProto(pb)
+	switch s.inject[h] {
+	case 1:
+		s.el.AddEvent(hotstuff.TimeoutEvent{View: 1})
+	case 2:
+		s.el.AddEvent(hotstuff.ViewChangeEvent{View: 2})
+	case 3:
+		s.chain.Store(b)
+	}
 	s.given = append(s.given, b)
 	return b, true
 }
@@ -268,7 +287,9 @@ func c13NetProgram(v *verifOut, s *verifStream, logger logging.Logger, seed int6
 	c13NewUniverse(uint64(seed))
 	c := &c13Net{v: v, intern: map[hotstuff.Hash]uint64{}, present: map[hotstuff.Hash]*hotstuff.Block{}}
 	c.snd = &c13QFSender{}
-	c.chain = blockchain.New(eventloop.New(logger, 16), logger, c.snd)
+	c.snd.el = eventloop.New(logger, 16)
+	c.chain = blockchain.New(c.snd.el, logger, c.snd)
+	c.snd.chain = c.chain
 	g := hotstuff.GetGenesis()
 	c.id(hotstuff.Hash{})
 	c.id(g.Hash())
@@ -381,6 +402,18 @@ func c13NetProgram(v *verifOut, s *verifStream, logger logging.Logger, seed int6
 			}
 			want := c.chainOf(b, also)[t.Hash()]
 			c.snd.tbl = tbl
+			c.snd.inject = nil
+			injDesc := ""
+			if rng.Intn(3) == 0 { // something happens in the replica between the fetches of this walk
+				c.snd.inject = map[hotstuff.Hash]int{}
+				for _, x := range uni { // in a fixed order: the case must replay from its seed
+					if also[x.Hash()] != nil {
+						c.snd.inject[x.Hash()] = rng.Intn(4)
+					}
+				}
+				injDesc = fmt.Sprintf(", events/stores while fetching: %d", len(c.snd.inject))
+				v.Count("extends_with_injection")
+			}
 			g0 := len(c.snd.given)
 			var got bool
 			if !c13Within(5*time.Second, func() { got = c.chain.Extends(b, t) }) {
@@ -390,7 +423,7 @@ func c13NetProgram(v *verifOut, s *verifStream, logger logging.Logger, seed int6
 			}
 			absorb(g0)
 			emit(fmt.Sprintf("(OExtends %s %s %s)", c.gB(b), c.gB(t), c.tblTerm(tbl)), "(RBool (Some "+gBool(got)+"))",
-				fmt.Sprintf("Extends %s %s (peers reply to %d hashes) -> %v", c.nm(b), c.nm(t), len(tbl), got))
+				fmt.Sprintf("Extends %s %s (peers reply to %d hashes%s) -> %v", c.nm(b), c.nm(t), len(tbl), injDesc, got))
 			if got != want {
 				c.fail("net:extends-wrong-answer", fmt.Sprintf("Extends(%s,%s)=%v, reference forest says %v", c.nm(b), c.nm(t), got, want))
 			} else {
